@@ -18,6 +18,7 @@ import ir
 from ir import walk, unwrap, show
 from accesses import Analyzer
 from framework import Check
+from effects import locate
 import c06
 import kernels
 
@@ -144,6 +145,73 @@ def rule_order(ck, units):
                   ('no accumulation site found' if not sites else 'at %s the product is `%s`: the entry of B is the left factor' % (f.where(bad[0]), show(bad[0]))) if (bad or not sites) else '')
 
 
+def rule_scan(ck, units):
+    """merge scans over sorted rows: `while (cur < end) { c = col[cur]; ...; if (c >= limit) break; ... }  saved = cur;`
+    The element that makes the scan stop belongs to the NEXT group; the cursor that is saved for the next scan must still point at it.
+    If the cursor is advanced before the test (`col[cur++]`, or `++cur` ahead of the `if`), the rejected element is consumed and never
+    takes part in the group it belongs to."""
+    ck.rule('scan-cursor-discipline', 'in a grouped scan over a sorted row the cursor is advanced only after the element was accepted: on the path from reading `col[cur]` to the `break` that '
+                                      'rejects the element (it belongs to the next block column) `cur` is not incremented when `cur` is saved for the next scan afterwards', 2)
+    done = set()
+    for u in units.values():
+        for f in u.funcs:
+            if f.cfg is None or (f.file, f.line) in done or not f.rel().startswith('amgcl/'):
+                continue
+            loc = locate(f)
+            k = 0
+            for L in [n for n in f.nodes.values() if n['k'] == 'while' and n.get('c') is not None]:
+                c = unwrap(L['c'])
+                if c['k'] != 'bin' or c['op'] != '<' or unwrap(c['x'])['k'] != 'ref':
+                    continue
+                cur = unwrap(c['x'])['d']
+                body = L['b']
+                # the element read at the cursor: T v = X[cur] / X[cur++]
+                reads = []
+                for n in walk(body):
+                    if n['k'] == 'decl':
+                        for v in n['v']:
+                            init = unwrap(v.get('init')) if v.get('init') is not None else None
+                            if init is not None and init['k'] == 'idx':
+                                ix = unwrap(init['x'])
+                                post = ix is not None and ix['k'] == 'un' and ix['op'] == '++' and unwrap(ix['e'])['k'] == 'ref' and unwrap(ix['e'])['d'] == cur
+                                plain = ix is not None and ix['k'] == 'ref' and ix['d'] == cur
+                                if post or plain:
+                                    reads.append((n, v['d'], post))
+                if not reads:
+                    continue
+                # breaks guarded by a comparison of a value read at the cursor
+                brks = []
+                for n in walk(body):
+                    if n['k'] == 'break' and not any(a['k'] in ('for', 'while', 'do', 'switch') and a is not L and any(x is a for x in walk(body)) for a in f.ancestors(n) if a is not L):
+                        for a in f.ancestors(n):
+                            if a is L:
+                                break
+                            if a['k'] == 'if' and any(x['k'] == 'ref' and x['d'] in {r[1] for r in reads} for x in walk(a['c'])) and unwrap(a['c'])['k'] == 'bin' and unwrap(a['c'])['op'] in ('>=', '>', '<', '<='):
+                                brks.append((n, a))
+                if not brks:
+                    continue
+                # is the cursor saved after the loop?
+                saved = [n for n in f.nodes.values() if n['k'] == 'bin' and n['op'] == '=' and n['i'] > L['i'] and not any(x is n for x in walk(L))
+                         and unwrap(n['y']) is not None and unwrap(n['y'])['k'] == 'ref' and unwrap(n['y'])['d'] == cur]
+                if not saved:
+                    continue
+                k += 1
+                incs = [n for n in walk(body) if n['k'] == 'un' and n['op'] == '++' and unwrap(n['e'])['k'] == 'ref' and unwrap(n['e'])['d'] == cur]
+                bad = None
+                for b_, cond_if in brks:
+                    for inc in incs:
+                        # executed before the test on the same iteration: source order inside the loop body before the guarding `if`
+                        if inc['i'] < cond_if['i'] and not any(a['k'] == 'if' for a in f.ancestors(inc) if any(x is a for x in walk(body))):
+                            bad = (inc, b_)
+                key = '%s|%s|scan#%d' % (f.rel(), f.q, k)
+                ck.ob('scan-cursor-discipline', key, f.where(bad[0]) if bad else f.where(L), bad is None,
+                      '' if bad is None else 'in %s: the cursor `%s` is advanced at %s before the test that ends the scan at %s; the element that belongs to the next block column is consumed and `%s` '
+                                             '(saved at %s) resumes behind it: that element never takes part in its own block' % (
+                                                 f.full[:70], f.decl(cur)['n'], f.where(bad[0]), f.where(bad[1]), f.decl(cur)['n'], f.where(saved[0])))
+            if k:
+                done.add((f.file, f.line))
+
+
 def main(tier):
     ck = Check('C08', tier, 'C08 (clauses): conjugation in adjoint / transpose, SpGEMM dispatch and factor order, serial / distributed agreement of the spectral radius scaling.')
     T = os.path.join(ir.VERIF, 'tus')
@@ -155,6 +223,7 @@ def main(tier):
     rule_transpose(ck, units)
     rule_dispatch(ck, units)
     rule_order(ck, units)
+    rule_scan(ck, units)
     c06.rule_chebyshev_bounds(ck, units, which=('sib',))
     ck.assumptions += ['that the kernels compute the products, sums and transposes their definitions prescribe (values, well-formed CRS structure), the row-merge kernel, the Gershgorin / power-method bounds '
                        'themselves and the block-to-pointwise reduction are NOT decided: they quantify over values',
